@@ -56,7 +56,7 @@ func main() {
 	r := common.Start("clusterrun")
 	sk := &sink{r: r}
 	switch r.Mode {
-	case "chaos", "sessions":
+	case "chaos", "sessions", "wire":
 		chaosMode(r, sk)
 	case "replay":
 		replayMode(r, sk)
@@ -82,27 +82,32 @@ func main() {
 }
 
 type chaosOpt struct {
-	Case          int    `json:"case"`
-	Hosts         int    `json:"hosts"`
-	Store         string `json:"store"`
-	SM            string `json:"sm"`
-	NotifyCommit  bool   `json:"notify_commit"`
-	PreVote       bool   `json:"pre_vote"`
-	CheckQuorum   bool   `json:"check_quorum"`
-	SnapEntries   uint64 `json:"snapshot_entries"`
-	Overhead      uint64 `json:"compaction_overhead"`
-	Keys          int    `json:"keys"`
-	Clients       int    `json:"clients"`
-	OpsPerClient  int    `json:"ops_per_client"`
-	TimeoutMs     int    `json:"timeout_ms"`
-	ScriptLen     int    `json:"script_len"`
-	Crashes       bool   `json:"crashes"`
-	NonVoting     bool   `json:"non_voting_replica"`
-	SaveDelayMs   int    `json:"save_delay_ms"`
-	PaceMs        int    `json:"pace_ms"`
-	SlowPrepareMs int    `json:"slow_prepare_ms"`
-	Snappy        bool   `json:"entry_compression_snappy"`
-	Seed          int64  `json:"seed"`
+	Case          int                `json:"case"`
+	Hosts         int                `json:"hosts"`
+	Store         string             `json:"store"`
+	SM            string             `json:"sm"`
+	NotifyCommit  bool               `json:"notify_commit"`
+	PreVote       bool               `json:"pre_vote"`
+	CheckQuorum   bool               `json:"check_quorum"`
+	SnapEntries   uint64             `json:"snapshot_entries"`
+	Overhead      uint64             `json:"compaction_overhead"`
+	Keys          int                `json:"keys"`
+	Clients       int                `json:"clients"`
+	OpsPerClient  int                `json:"ops_per_client"`
+	TimeoutMs     int                `json:"timeout_ms"`
+	ScriptLen     int                `json:"script_len"`
+	Crashes       bool               `json:"crashes"`
+	NonVoting     bool               `json:"non_voting_replica"`
+	SaveDelayMs   int                `json:"save_delay_ms"`
+	PaceMs        int                `json:"pace_ms"`
+	SlowPrepareMs int                `json:"slow_prepare_ms"`
+	Snappy        bool               `json:"entry_compression_snappy"`
+	CmdPad        int                `json:"max_command_padding"`
+	Wire          bool               `json:"real_tcp_transport_behind_corrupting_proxies"`
+	Ballast       int                `json:"snapshot_ballast_bytes"`
+	ExtFiles      bool               `json:"external_snapshot_files"`
+	WireFaults    cluster.WireFaults `json:"wire_faults"`
+	Seed          int64              `json:"seed"`
 }
 
 func chaosMode(r *common.Run, sk *sink) {
@@ -111,9 +116,16 @@ func chaosMode(r *common.Run, sk *sink) {
 	if r.Mode == "replay" {
 		r.SetRule("each case = one lifetime of a 3- or 5-host cluster of real NodeHosts as in the chaos stage, tuned for C08: snapshots every 8-25 entries with a compaction overhead of 1-3 entries so that lagging, isolated, crashed and newly added (non-voting) replicas are caught up by snapshot (file transfer for plain/concurrent state machines, live stream for on-disk ones), PrepareSnapshot dwelling 0-3 ms; after healing and again after a power loss of all hosts the state of every replica is compared with the replay of the whole committed log (union of the apply records of all state machine incarnations) up to the last entry that replica holds; non-trivial = at least one RecoverFromSnapshot happened and the replicas converged; distinct by hash of the recorded history. Then catch-up cases: 3 replicas (+1 non-voting replica added half way) under continuous writes, 8-13 cycles of cutting off or crashing a follower until the leader compacted the log it misses, healing, and catching it up by snapshot while entries keep being applied; same oracle")
 	}
+	if r.Mode == "wire" {
+		r.SetRule("each case = one lifetime of a 3- or 5-host cluster of real NodeHosts as in the chaos stage, but on the real file system and over dragonboat's own TCP transport on loopback: every host advertises the address of a byte-level proxy of the harness that flips single bits, cuts connections inside frames and forwards the rest (the frame checks of the receiver are what keeps altered batches and chunks out); snapshot chunk streams lose, repeat and get single payload bytes changed before framing (the chunk tracker and the stream validator are what keeps altered images out); snapshots carry a ballast of up to 5 MB derived from the data (several blocks / chunks) and, for plain and concurrent state machines, 1-2 external files of sizes around the chunk size, all verified inside RecoverFromSnapshot; commands carry padding derived from their id, verified inside Update; hosts are stopped gracefully and restarted instead of losing power. Oracles: altered snapshot data or an altered command reaching the state machine, the linearizability oracle over the client history, every replica equal to the replay of the whole committed log. non-trivial = a snapshot was recovered from, bits were flipped on the wire and the replicas converged; distinct by hash of the recorded history")
+		r.Assume("the proxies and the chunk perturbation never fabricate a message and never repeat a raft message batch; a bit flip the CRC32 of a frame cannot see (none for single flips) would be reported")
+	}
 	n := r.Pick(8, 96)
 	if r.Prop == "C04" {
 		n = r.Pick(8, 96)
+	}
+	if r.Mode == "wire" {
+		n = r.Pick(6, 64)
 	}
 	for _, c := range r.MyCases(n) {
 		rng := r.Rand("chaos", c)
@@ -151,6 +163,21 @@ func chaosMode(r *common.Run, sk *sink) {
 		}
 		o.NonVoting = rng.Intn(3) == 0
 		o.Snappy = rng.Intn(3) == 0
+		if rng.Intn(3) == 0 {
+			o.CmdPad = 40 + rng.Intn(400)
+		}
+		if r.Mode == "wire" {
+			wr := r.Rand("wire", c)
+			o.Wire = true
+			o.SnapEntries = []uint64{12, 20, 35}[wr.Intn(3)]
+			o.Overhead = uint64(2 + wr.Intn(4))
+			o.Ballast = []int{0, 2<<20 - 30, 2<<20 + 5, 4<<20 + 100, 5 << 20}[wr.Intn(5)]
+			o.ExtFiles = o.SM != "ondisk" && wr.Intn(2) == 0
+			o.CmdPad = 200 + wr.Intn(3000)
+			o.SaveDelayMs = 0
+			o.WireFaults = cluster.WireFaults{FlipPerMB: int32(1 + wr.Intn(12)), CutPerMB: int32(wr.Intn(5)),
+				ChunkLostPm: int32(wr.Intn(100)), ChunkCorruptPm: int32(50 + wr.Intn(200)), ChunkDupPm: int32(wr.Intn(100))}
+		}
 		if r.Mode == "replay" {
 			// C08: frequent snapshots, short logs (lagging replicas need a snapshot: a file for
 			// plain / concurrent state machines, a live stream for on-disk ones), slow PrepareSnapshot
@@ -177,21 +204,44 @@ func runChaos(r *common.Run, sk *sink, o chaosOpt) {
 	if o.NonVoting {
 		nHosts++ // one more host carrying a non-voting replica that clients use as well
 	}
+	cluster.SetCmdPad(o.CmdPad)
+	defer cluster.SetCmdPad(0)
+	wireDir := ""
+	if o.Wire {
+		d, err := os.MkdirTemp("", "wire")
+		if err != nil {
+			r.Inconclusive(fmt.Sprintf("case %d: no scratch directory: %v", o.Case, err))
+			return
+		}
+		wireDir = d
+		defer os.RemoveAll(d)
+	}
+	var extDir func(int) string
+	if o.ExtFiles {
+		extDir = func(h int) string { return fmt.Sprintf("%s/ext%d", wireDir, h+1) }
+	}
 	c := cluster.NewCluster(cluster.Options{
 		Hosts: nHosts, Seed: o.Seed, RTTMs: 10, Store: store, NotifyCommit: o.NotifyCommit,
-		SaveDelay: time.Duration(o.SaveDelayMs) * time.Millisecond,
+		SaveDelay: time.Duration(o.SaveDelayMs) * time.Millisecond, Wire: o.Wire, WireDir: wireDir,
 		SMOpt: func(uint64, uint64) cluster.SMOptions {
-			return cluster.SMOptions{Kind: kind, RecordApply: true, RaceCanary: true,
-				SlowPrepare: time.Duration(o.SlowPrepareMs) * time.Millisecond}
+			return cluster.SMOptions{Kind: kind, RecordApply: true, RaceCanary: true, StrictCmd: true,
+				SlowPrepare: time.Duration(o.SlowPrepareMs) * time.Millisecond, Ballast: o.Ballast, ExtDir: extDir}
 		},
 	}, sk)
+	if o.Wire {
+		c.Net.SetWireFaults(o.WireFaults)
+	}
 	const shardID = 1
 	replicas := map[uint64]int{}
 	for i := 0; i < o.Hosts; i++ {
 		replicas[uint64(i+1)] = i
 	}
+	var repMu sync.RWMutex // hostOf runs in step workers (hooks) while the non-voting replica is added
 	hostOf := func(s, rep uint64) *cluster.Host {
-		if hi, ok := replicas[rep]; ok && s == shardID {
+		repMu.RLock()
+		hi, ok := replicas[rep]
+		repMu.RUnlock()
+		if ok && s == shardID {
 			return c.Hosts[hi]
 		}
 		return nil
@@ -262,7 +312,9 @@ func runChaos(r *common.Run, sk *sink, o chaosOpt) {
 				cfg.EntryCompressionType = config.Snappy
 			}
 			if err := nvHost.StartReplica(nil, true, kind, cfg); err == nil {
+				repMu.Lock()
 				replicas[nvID] = o.Hosts
+				repMu.Unlock()
 				sk.Count("cases_with_non_voting_replica", 1)
 			}
 		}
@@ -342,6 +394,7 @@ func runChaos(r *common.Run, sk *sink, o chaosOpt) {
 	// heal
 	c.Net.SetLoss(0, 0, 0)
 	c.Net.HealAll()
+	c.Net.SetWireFaults(cluster.WireFaults{})
 	for _, h := range c.Hosts {
 		if h.Crashed() || h.NH == nil {
 			restart(c, sk, h)
@@ -385,6 +438,9 @@ func runChaos(r *common.Run, sk *sink, o chaosOpt) {
 				sk.Violation("C04", "completed-proposal-lost-after-power-loss", a.What, wit)
 			}
 			sk.Violation("C01", "history:"+a.Kind, a.What, wit)
+			if o.Wire && a.Kind == "fabricated-value" {
+				sk.Violation("C13", "history:"+a.Kind, a.What, wit)
+			}
 			if a.Kind == "duplicate-apply" || a.Kind == "failed-write-visible" {
 				sk.Violation("C12", "history:"+a.Kind, a.What, wit)
 			}
@@ -422,6 +478,18 @@ func runChaos(r *common.Run, sk *sink, o chaosOpt) {
 	sk.Count("net_reordered", ns.Reordered)
 	sk.Count("net_conn_failures", ns.ConnFailures)
 	sk.Count("net_chunks", ns.Chunks)
+	ws := c.Net.WireStats()
+	if o.Wire {
+		sk.Count("wire_tcp_connections_through_proxies", ws.Conns)
+		sk.Count("wire_bytes_through_proxies", ws.Bytes)
+		sk.Count("wire_bits_flipped", ws.Flips)
+		sk.Count("wire_connections_cut_inside_the_stream", ws.Cuts)
+		sk.Count("wire_chunks_sent", ws.ChunksSent)
+		sk.Count("wire_chunks_lost", ws.ChunksLost)
+		sk.Count("wire_chunks_corrupted_before_framing", ws.ChunksCorrupted)
+		sk.Count("wire_chunks_repeated", ws.ChunksDuplicated)
+		sk.Count("wire_chunk_send_errors", ws.ChunkSendErrors)
+	}
 	sk.Count("leader_terms", int64(c.LeaderTerms()))
 	var ssRecoveries int64
 	for _, in := range c.SMs.Instances() {
@@ -437,6 +505,9 @@ func runChaos(r *common.Run, sk *sink, o chaosOpt) {
 	if r.Mode == "replay" {
 		// C08: some replica continued from a snapshot (installed or recovered) and then applied a log suffix
 		nontrivial = ssRecoveries > 0 && recovered
+	}
+	if r.Mode == "wire" {
+		nontrivial = ssRecoveries > 0 && recovered && ws.Flips > 0
 	}
 	r.Case(nontrivial, common.Hash(fmt.Sprintf("%v", ops)))
 	if r.WantSample() {
